@@ -25,7 +25,7 @@ def generate(rng, tier):
             user = cred(rng)
             if rng.random() < 0.1: user = (cred(rng, 1, 12) + rng.choice([" ", "  ", " ."]))[:16]
             U = pyref.normalize(user).encode()
-            K = rbytes(rng, 40)
+            K = special_key(rng) if rng.random() < 0.15 else rbytes(rng, 40)      # all-zero / all-ones / counting / constant keys too
             cseed = rng.choice(SEEDS) if rng.random() < 0.4 else rng.getrandbits(32)
             sseed = cseed if rng.random() < 0.1 else (rng.choice(SEEDS) if rng.random() < 0.4 else rng.getrandbits(32))
             proof = pyref.world_proof(U, K, cseed, sseed)
